@@ -121,7 +121,8 @@ def evaluate(only: list[str]) -> int:
         f.write("# Seeded changes (written by independent sub-agents, confirmed by tools/confirm_seeded.sh)\n\n")
         f.write("Changes `_1`, `_2` are the first round, `_3`-`_5` the second, `_6`-`_8` the third (each must need something specific to manifest),\n"
                 "`_9`-`_11` the fourth (prescribed kinds: outside the anchored bodies / data only / deletion or reordering), `_12`-`_14` the fifth\n"
-                "(python / numpy semantics pitfall / error handling or validation / cross-module contract).  All but the first round were\n"
+                "(python / numpy semantics pitfall / error handling or validation / cross-module contract), `_15`, `_16` a short sixth (C02 C05 C11 C12 C16 C18, free choice).\n"
+                "All but the first round were\n"
                 "written when the checks already existed; the last column is the verdict of the checks as they were when the change was first tried.\n"
                 "Three changes were not kept (C13_7, C20_8, C20_12): they do not break the property as stated (DESIGN.md section 7.6).\n\n")
         f.write("| change | own check exit | rules reporting | also reported by | against the checks as first tried |\n|---|---|---|---|---|\n")
